@@ -174,3 +174,14 @@ def derive_inv(symbol_iter, mol, init_state, root_atom, rings, n_derived, state,
             and iter_len(symbol_iter) == old(iter_len(symbol_iter)) and iter_exc(symbol_iter) == old(iter_exc(symbol_iter))
             and iter_pos(symbol_iter) >= old(iter_pos(symbol_iter)) and iter_pos(symbol_iter) <= iter_len(symbol_iter)
             and all(iter_item(symbol_iter, j) == old(iter_item(symbol_iter, j)) for j in range(iter_len(symbol_iter))))
+
+
+@contract("selfies/decoder.py::_tokenize_selfies", props=["C13", "C08", "C18"])
+def _tokenize_selfies(selfies: str, compatible: bool):
+    # the decoder's token generator: [nop] is dropped before anything else sees a symbol, and the tokenizer's
+    # ValueError (hanging '[') leaves only as DecoderError
+    requires(not compatible)      # with compatible=True each symbol additionally passes through modernize_symbol
+    raises(DecoderError)
+    yields_type('str')
+    yields(typed(item, 'str') and item != "[nop]", tag="C13:nop-never-reaches-the-derivation")
+    invariant("for symbol in symbol_iter", True, tag="none-needed")
